@@ -1005,6 +1005,7 @@ def register_link_roots(R):
             it = by_type(v, RowIter18, "row iterator")
             self.kappa, self.rho, self.m = it.sel.flt.kappa, it.sel.flt.rho, it.sel.flt.nz()
             self.k = to_z3(v["_k0"], "int")
+            self.start = it.start  # how many selected rows next() took before the loop (the code skips exactly the first root)
 
         def R(self, t):
             return self.T.R(t)
@@ -1013,7 +1014,11 @@ def register_link_roots(R):
             return sel(self.P0, x) == -1
 
         def cur_root(self, x):
-            return z3.And(self.root0(x), z3.Or(self.rho(x) == 0, self.rho(x) > self.k))
+            return z3.And(self.root0(x), z3.Not(self.taken(x)))
+
+        def taken(self, x):
+            """x is one of the roots the loop has linked so far"""
+            return z3.And(self.rho(x) >= self.start, self.rho(x) < self.start + self.k)
 
         def P(self, x):
             return z3.If(self.root0(x), sel(self.par, x), self.T.e(x))
@@ -1029,7 +1034,7 @@ def register_link_roots(R):
             if which == "original-edges-kept":
                 return z3.ForAll([x], z3.Implies(z3.And(C.R(x), z3.Not(C.root0(x))), sel(C.P1, x) == sel(C.P0, x)))
             if which == "roots-taken-so-far-are-linked-the-others-untouched":
-                linked = z3.And(C.rho(x) >= 1, C.rho(x) <= C.k)
+                linked = C.taken(x)
                 return z3.ForAll([x], z3.Implies(z3.And(C.R(x), C.root0(x)),
                                                  z3.If(linked, z3.And(C.R(sel(C.par, x)), sel(C.P1, x) == sel(C.ID, sel(C.par, x))), sel(C.P1, x) == -1)))
             if which == "current-table-is-a-forest(root-and-depth-witness)":
@@ -1089,8 +1094,11 @@ def register_link_roots(R):
         """(par, dp): the final ghost arrays in the carrier's own proof, fresh Skolem arrays at a call site"""
         if "G" in v:
             return v["G"].fields["par"].arr, v["G"].fields["dp"].arr
+        if (E.cur_key or "").endswith(":link_roots_to_nearest") and "link-witness" in E.ghost:
+            return E.ghost["link-witness"]  # the copying form: the witness its callee's contract handed over
         A = z3.ArraySort(_I, _I)
-        return z3.Const(fresh_name("link_par"), A), z3.Const(fresh_name("link_depth"), A)
+        E.ghost["link-witness"] = (z3.Const(fresh_name("link_par"), A), z3.Const(fresh_name("link_depth"), A))
+        return E.ghost["link-witness"]
 
     def post(which):
         def f(E, v, o):
@@ -1127,6 +1135,24 @@ def register_link_roots(R):
           options=dict(ghost_after=GHOST, hints={"loop0/preserved/only-the-parent-column-is-written": step_hint}),
           notes="which foreign row is chosen (the nearest) is not part of the property: the contract needs only that argmin over the rows of OTHER trees "
                 "returns a row of another tree; termination of get_dsu is not proved")
+
+    def on_result(clause):
+        def f(E, v, o):
+            r = v["result"]
+            if not hasattr(r, "cols"):
+                return False
+            return clause(E, {"df": r}, o)
+
+        return f
+
+    def fresh_result(E, v, o):
+        r = v["result"]
+        return hasattr(r, "cols") and r is not v["df"] and not (_frame_uids(r) & _frame_uids(o["df"]))
+
+    R.add(f"{NORM}:link_roots_to_nearest", prop="C18",
+          setup=lambda S: dict(df=frame(S, frozen=True), names=None), requires=PRE,
+          ensures=[(nm, on_result(post(nm))) for nm in POSTS] + [("attributes-untouched", on_result(other_cols)), ("result-is-a-fresh-frame", fresh_result)],
+          notes="input frame frozen; the in-place form is used through its contract")
 
 
 _reg_5 = register
